@@ -35,7 +35,7 @@ def run(ctx):
         with concurrent.futures.ThreadPoolExecutor(max_workers=3) as ex:
             # (d) expiry: one process, waits for real janitor passes (~61 s each); everything else runs meanwhile
             fd = ex.submit(ctx.run_shards, b, "TestVerifC13", 1, 900 if thorough else 700, "c13expiry", {"C13_PART": "d"})
-            fa = ex.submit(ctx.run_shards, b, "TestVerifC13", 8, 1500 if thorough else 400, "c13abce", {"C13_PART": "abce"})
+            fa = ex.submit(ctx.run_shards, b, "TestVerifC13", 8, 1500 if thorough else 400, "c13abcef", {"C13_PART": "abcef"})
             br = ctx.build(PKG, race=True)
             fr = ex.submit(ctx.run_shards, br, "TestVerifC13", 6, 1500 if thorough else 500, "c13race",
                            {"C13_PART": "a", "C13_RACE": "1", "VERIF_TIER": "quick"}, True)
@@ -114,10 +114,19 @@ def run(ctx):
         "session's and a fresh address are judged as in (b), then in cycles a random part of the population (always the holder of the "
         "highest id) is closed by client or server, the old owners name their retired ids again, the freed slots are re-taken from fresh "
         "addresses plus a surplus and the whole population transfers again; same online monitors and offline porcupine check as (a). "
-        "A case is non-trivial if the deciding comparison ran on bytes actually transferred (a-c, e; e also: the population reached its "
-        "intended size or the capacity) / the predecessor's retirement had provably expired at the observed pass (d).",
+        "(f) reordered delivery: k in 2..16 sessions opened by the real client, then every session's keyed upstream stream is cut into packets "
+        "that reach the server locally shuffled (packet n+1.. before packet n, inside the protocol's window, shuffle windows 2..40, thorough "
+        "up to 100), some twice, the sessions' deliveries interleaved in one merged schedule or sent from several goroutines; after every "
+        "delivery the session's server-side stream is read and every byte must be the session's own at that position. "
+        "(d) also: at the moment the janitor logs that an idle session S is stale (logrus hook, inside the pass) the harness tries the table's "
+        "lock; if it is free the server application closes S and a new peer H completes its handshake inside the pass, otherwise both are "
+        "done right after the pass; H must survive that pass and the next ones. "
+        "A case is non-trivial if the deciding comparison ran on bytes actually transferred (a-c, e, f; e also: the population reached its "
+        "intended size or the capacity; f also: packets were accepted ahead of a predecessor) / the predecessor's retirement had provably "
+        "expired at the observed pass (d).",
         ["source addresses are what the communicator reports (net.Addr strings), as for the real UDP communicator",
          "which of BADIP/BADUSER/BADCONN a rejection carries is recorded but not judged",
          "in (e) whether a handshake was refused is read from the answer on the wire (the real client's VersionHandshake reports a refused handshake as success)",
-         "in (a) and (e) all sessions keep the default Base32 downstream codec so that the recorder can classify answers without guessing"],
+         "in (f) whether the whole reordered stream arrives is recorded, not judged (only what is read must be the session's own bytes in order)",
+         "in (a), (e) and (f) all sessions keep the default Base32 downstream codec so that the recorder can classify answers without guessing"],
         extra_cov={"exhaustive": False}, min_distinct=2, post=post)
